@@ -124,6 +124,31 @@ EN_DOC = "Feature: f\n Scenario: s\n  And a\n  Given b\n  And c\n  When d\n  But
 EN_TYPES = ["Unknown", "Context", "Context", "Action", "Action", "Outcome", "Unknown", "Unknown"]
 
 
+def unit_long_seq(a):
+    """longer step lists than the exhaustive sweep reaches: a cyclic base of keyword types with one, two, three or four And/But steps at
+    every position (also adjacent ones), split between backgrounds and scenario at several points"""
+    stats = Stats()
+
+    def gen():
+        n = 0
+        for L in a["lengths"]:
+            base = "".join("CAOU"[(i * 7 + i // 3) % 4] for i in range(L))
+            pos_sets = [(p,) for p in range(L)] + [(p, p + 1) for p in range(L - 1)] + [(p, p + 1, p + 2) for p in range(0, L - 2, 2)] + \
+                       [(p, q) for p in range(0, L, 3) for q in range(p + 2, L, 5)] + [(0, 1, L - 2, L - 1), tuple(range(L))] if L <= 40 else \
+                       [(L - 2, L - 1), (0, L - 1), (7, 8), (L // 2, L // 2 + 1), tuple(range(1, L))]
+            for ps in pos_sets:
+                seq = "".join("J" if i in ps else c for i, c in enumerate(base))
+                for cut1, cut2 in ((0, 0), (0, 2), (1, 3), (3, 3), (L // 2, L // 2), (2, L - 1)):
+                    if not (cut1 <= cut2 < L):
+                        continue
+                    n += 1
+                    if n % a["nshards"] != a["shard"]:
+                        continue
+                    yield {"sub": "seq", "fbg": seq[:cut1] if cut1 else None, "rbg": seq[cut1:cut2] if cut2 > cut1 else None, "own": seq[cut2:]}
+    sweep(stats, gen(), check_seq)
+    return stats
+
+
 def check_dialect(case, stats):
     d, (bgs, own), variant = case["dialect"], case["shape"], case["variant"]
     D = DIALECTS[d]
@@ -256,6 +281,7 @@ def run(ctx):
     ns = 16
     maxlen = 5 if q else 7
     ctx.units("type-sequences-exhaustive", unit_seq, [{"maxlen": maxlen, "shard": i, "nshards": ns} for i in range(ns)], procs=ns)
+    ctx.units("type-sequences-long", unit_long_seq, [{"lengths": list(range(8, 21)) + [31, 32, 33] + ([] if q else list(range(21, 31)) + [64, 65, 257]), "shard": i, "nshards": ns} for i in range(ns)], procs=ns)
     from . import c07
     ctx.units("shared-compiler-threads", c07.unit_shared, [{"reps": 10 if q else 100}])
     ctx.units("cross-dialect-shared-keywords", unit_cross, [{"shard": i, "nshards": ns} for i in range(ns)], procs=ns)
